@@ -29,6 +29,11 @@ from vp.common import (
 )
 
 
+def _replay_by_name(args):
+    modname, case = args
+    return _replay_case(importlib.import_module(modname), case)
+
+
 def _replay_case(mod, case):
     try:
         mod.evaluate(case)
@@ -94,10 +99,13 @@ def main(argv=None):
         if hasattr(mod, "warmup"):
             mod.warmup()
         reg = sorted(glob.glob(os.path.join(VERIF, "regress", prop, "*.json")))
+        reg_cases = []
         for path in reg:
             with open(path) as f:
-                doc = json.load(f)
-            viol = _replay_case(mod, doc["case"])
+                reg_cases.append(json.load(f)["case"])
+        from vp.common import pool_map
+
+        for viol in pool_map(_replay_by_name, [(mod.__name__, c) for c in reg_cases], procs=ctx.procs):
             stats.count("regress_replayed")
             if viol is not None:
                 stats.violations.append(viol)
